@@ -19,6 +19,13 @@ OPS = ["mul_u", "mul_f", "had", "integrate", "log_integral", "density", "margina
        "update", "cond_x", "set_y", "joint_c", "joint_p", "marg_c", "marg_p", "post_c", "post_p", "info_c", "info_p", "fslice"]
 
 
+def pre_check(workdir, tier):
+    """regenerated syntactic theorems (harness/purity_extract.py, coq/schema/PurityThm.v): every `slice` method returns a
+    freshly constructed object, and no product / evaluation / slice method stores into an operand"""
+    from . import c01
+    return c01.pre_check(workdir, tier)
+
+
 def gen_idx(g, R):
     k = g.randint(1, min(R + 1, 4))
     mode = g.choice(["rep", "neg", "perm", "mixed"])
